@@ -391,3 +391,62 @@ func (s *Site) Key() string {
 }
 
 var _ = strconv.Itoa
+
+// RecoverReports: after the deferred closure of d has recovered a panic, fn
+// hands the failure to its caller: fn has an error result, the value returned
+// from the recover block for it is loaded from a variable (a named result),
+// and the recovering closure assigns that variable a value that is not the
+// nil constant. Otherwise a recovered panic makes fn return zero values and a
+// nil error - the failure is swallowed.
+func RecoverReports(fn *ssa.Function, d *ssa.Defer) (bool, string) {
+	errT := types.Universe.Lookup("error").Type()
+	res := fn.Signature.Results()
+	errIdx := -1
+	for i := 0; i < res.Len(); i++ {
+		if types.Identical(res.At(i).Type(), errT) {
+			errIdx = i
+		}
+	}
+	if errIdx < 0 {
+		return false, "the function has no error result to report the recovered panic with"
+	}
+	if fn.Recover == nil || len(fn.Recover.Instrs) == 0 {
+		return false, "no recover block"
+	}
+	ret, ok := fn.Recover.Instrs[len(fn.Recover.Instrs)-1].(*ssa.Return)
+	if !ok || len(ret.Results) <= errIdx {
+		return false, "the recover block does not return the results"
+	}
+	ld, ok := ret.Results[errIdx].(*ssa.UnOp)
+	if !ok {
+		return false, "after a recovered panic the function returns the constant " + ret.Results[errIdx].String() + " as its error (the results are not named, so the deferred function cannot set them): the panic is swallowed and the caller gets zero values without an error"
+	}
+	al, ok := ld.X.(*ssa.Alloc)
+	if !ok {
+		return false, "the error returned after a recovered panic is not a named result"
+	}
+	mc, ok := d.Call.Value.(*ssa.MakeClosure)
+	if !ok {
+		return false, "the recovering function is not a closure: it cannot set the named error result"
+	}
+	anon := mc.Fn.(*ssa.Function)
+	for i, bnd := range mc.Bindings {
+		if bnd != ssa.Value(al) {
+			continue
+		}
+		fv := anon.FreeVars[i]
+		for _, b := range anon.Blocks {
+			for _, ins := range b.Instrs {
+				st, ok := ins.(*ssa.Store)
+				if !ok || st.Addr != ssa.Value(fv) {
+					continue
+				}
+				if k, isK := st.Val.(*ssa.Const); isK && k.Value == nil {
+					continue
+				}
+				return true, ""
+			}
+		}
+	}
+	return false, "the recovering closure never assigns the named error result " + al.Comment + ": a recovered panic is swallowed and the caller gets the results as they were, without an error"
+}
